@@ -230,6 +230,23 @@ func (e *Engine) kIntrinsic(fn *ssa.Function, name string, args []Value, st *Sta
 		return &TupleV{F: []Value{&BytesV{Nil: FalseT, S: e.freshStr(st, "filebytes", e.strMax)}, errV}}, st, true
 	case "gopkg.in/yaml.v3.Unmarshal":
 		return e.yamlUnmarshal(fn, args, st), st, true
+	case "(*github.com/gravitational/protoc-gen-terraform/v3.MessageSchemaGenerator).Generate",
+		"(*github.com/gravitational/protoc-gen-terraform/v3.MessageCopyFromGenerator).Generate",
+		"(*github.com/gravitational/protoc-gen-terraform/v3.MessageCopyToGenerator).Generate":
+		// jennifer rendering is environment: the call is recorded as "this function was emitted for <Name>"
+		mn := e.messageNameOf(st, args[0])
+		marker := map[string]string{"MessageSchemaGenerator": "func GenSchema" + mn + "(", "MessageCopyFromGenerator": "func Copy" + mn + "FromTerraform(",
+			"MessageCopyToGenerator": "func Copy" + mn + "ToTerraform("}
+		for k2, v := range marker {
+			if strings.Contains(name, k2) {
+				e.events = append(e.events, Event{Name: v, G: e.reach(st)})
+			}
+		}
+		e.stubs[name+" (recorded emission)"]++
+		return &TupleV{F: []Value{BVC(64, 0), zero(fn.Signature.Results().At(1).Type())}}, st, true
+	case "(github.com/gravitational/protoc-gen-terraform/v3.SharedCodeGenerator).Write":
+		e.events = append(e.events, Event{Name: "type attrReadMissingDiag struct", G: e.reach(st)})
+		return &TupleV{F: []Value{BVC(64, 0), zero(fn.Signature.Results().At(1).Type())}}, st, true
 	case "(*github.com/gravitational/protoc-gen-terraform/v3.Config).dump":
 		e.stubs["Config.dump (logging only)"]++
 		return nil, st, true
@@ -504,4 +521,17 @@ func (e *Engine) strJoin(st *State, sl *SliceV, sep *Term) *Term {
 		r = Ite(BVBin("<", BVC(64, uint64(i)), sl.Len, true), nx, r)
 	}
 	return r
+}
+
+// messageNameOf reads <generator>.Message.Name of a Message*Generator receiver.
+func (e *Engine) messageNameOf(st *State, recv Value) string {
+	gv := e.load(st, recv.(*PtrV), types.Typ[types.Int]).(*StructV)
+	mv := e.load(st, gv.F[0].(*PtrV), types.Typ[types.Int]).(*StructV)
+	stt := mv.T.Underlying().(*types.Struct)
+	for i := 0; i < stt.NumFields(); i++ {
+		if stt.Field(i).Name() == "Name" {
+			return constStr(mv.F[i], "Message.Name in the write kernel")
+		}
+	}
+	panic(unsupported("Message.Name not found"))
 }
